@@ -1,5 +1,5 @@
 SPECIFICATION Spec
-CONSTANTS CmaxI = 129  EminNeg = 2  Emax = 2
+CONSTANTS CmaxI = 39  EminNeg = 2  Emax = 2
 CONSTANT Ops = {"QuoRem"}
 INVARIANTS CorrectlyRounded QuoRemOK NaNExactlyWhenInvalid Laws CohortIndependent
 CHECK_DEADLOCK FALSE
